@@ -342,10 +342,13 @@ func Clients() *runner.ExtraResult {
 			}
 			// every call is made twice on the same client (a controller relists and reconnects through one client):
 			// the second request must be as clean as the first
-			for _, call := range []string{"list", "watch", "watch#2", "list#2"} {
+			// "watch#plain": Watch called the way client-go's typed clients are called, without the Watch flag in the
+			// options - it must still be a watch request on the watch path of the resource
+			for _, call := range []string{"list", "watch", "watch#2", "list#2", "watch#plain"} {
 				res.Distinct++
 				id := fmt.Sprintf("%s %s %s", pkg, call, nsTag)
-				verb := strings.TrimSuffix(call, "#2")
+				verb := strings.TrimSuffix(strings.TrimSuffix(call, "#2"), "#plain")
+				plain := strings.HasSuffix(call, "#plain")
 				rv := "42"
 				if call == "watch#2" {
 					rv = "43"
@@ -382,7 +385,7 @@ func Clients() *runner.ExtraResult {
 						}
 					}
 				case "watch":
-					w, err := c.Watch(ctx, metav1.ListOptions{ResourceVersion: rv, Watch: true})
+					w, err := c.Watch(ctx, metav1.ListOptions{ResourceVersion: rv, Watch: !plain})
 					callErr = err
 					if w != nil {
 						gotType = reflect.TypeOf(w)
@@ -413,6 +416,10 @@ func Clients() *runner.ExtraResult {
 						fmt.Sprintf("%s: request path is %s, expected %s (object type %s is served as resource %q under %s, namespaced=%v)", id, r.Path, expPath, typeKey, exp.resource, exp.prefix, exp.namespaced))
 				}
 				cmp()
+				if plain && len(r.Query["watch"]) == 0 {
+					// the watch path needs no watch=true parameter: both forms are a watch request
+					delete(expQuery, "watch")
+				}
 				if !sameQuery(r.Query, expQuery) {
 					viol(fmt.Sprintf("%s query %s expected %s", id, fmtQuery(r.Query), fmtQuery(expQuery)),
 						fmt.Sprintf("%s: request query is %s, expected %s (a list carries no watch=true and no selector; a watch carries watch=true and the passed resourceVersion)", id, fmtQuery(r.Query), fmtQuery(expQuery)))
